@@ -441,6 +441,7 @@ class Simulator(EventProducer, SimulatorInterface, Generic[TIME]):
         """Runs the simulator up to a certain time; any events at that time, 
         or the solving of the differential equation at that timestep, 
         will not yet be executed."""
+        self._check_stop_time(stop_time)
         self._run_until_time = stop_time
         self._run_until_including = False
         self._start_impl()
@@ -449,9 +450,17 @@ class Simulator(EventProducer, SimulatorInterface, Generic[TIME]):
         """Runs the simulator up to a certain time; all events at that time, 
         or the solving of the differential equation at that timestep, 
         will be executed."""
+        self._check_stop_time(stop_time)
         self._run_until_time = stop_time
         self._run_until_including = True
         self._start_impl()
+    
+    def _check_stop_time(self, stop_time: TIME):
+        """Refuse a bound before the current time or beyond the run length."""
+        if self._replication is not None and not (self._simulator_time 
+                <= stop_time <= self._replication.end_sim_time):
+            raise DSOLError("stop_time not between simulator_time and the "
+                            +"end of the replication")
     
     def warmup(self):
         self.fire_timed(self.simulator_time,
